@@ -15,7 +15,8 @@ import re
 
 ADDRS = ["4:c0000201:3478", "4:c0000201:3479", "6:20010db8000000000000000000000001:3478", "4:0a000001:9",
          "6:00000000000000000000ffffc0000207:3478", "4:c0000207:3478",
-         "6:fe800000000000000000000000000001%2:3478", "6:fe800000000000000000000000000001%3:3478"]
+         "6:fe800000000000000000000000000001%2:3478", "6:fe800000000000000000000000000001%3:3478",
+         "6:fe800000000000000000000000000001%3.4660:3478", "6:20010db8000000000000000000000001%0.7:3478"]
 TIDS = [0x01, 0x0203_0405_0607_0809_0a0b_0c0d, 0xffff_ffff_ffff_ffff_ffff_ffff, 0x2112_a442, 0x7000_0000_0000_0000_0000_0001]
 
 
